@@ -409,6 +409,7 @@ let ghost n = choose|n: int| part_ok(old, n) && forall|s: StateID, cc: CharClass
 let ghost mut org: Seq<int> = Seq::empty();
 proof {
     assert(groups_disjoint(old)) by {
+        reveal(groups_disjoint);
         assert forall|g: int, h: int, x: StateID| 0 <= g < old.len() && 0 <= h < old.len() && #[trigger] old[g].contains(x) && #[trigger] old[h].contains(x) implies g == h by {
             assert(StateID(x.0 as int as u32) == x);
             assert(in_grp(old, g, x.0 as int) && in_grp(old, h, x.0 as int));
@@ -417,7 +418,7 @@ proof {
 }
 """),
         Ins('after_stmt', 'let mut new_partition = $_;', """
-proof { assert(pv(new_partition@) =~= Seq::<Set<StateID>>::empty()); assert(refined(tm, old, pv(new_partition@), org, 0)); }
+proof { assert(pv(new_partition@) =~= Seq::<Set<StateID>>::empty()); assert(groups_disjoint(pv(new_partition@))) by { reveal(groups_disjoint); } assert(refined(tm, old, pv(new_partition@), org, 0)); }
 """),
         Replace('E13+E11', 'for (index, group) in partition.iter().enumerate() { Self::split_group($args).into_iter().for_each(|new_group| { $body }); }', """
 let mut __i: usize = 0;
@@ -461,8 +462,12 @@ while __i < partition.len()
         }
     }
     proof {
-        lemma_refine_step(tm, old, new0, org0, index as int, pcs);
-        org = org0 + Seq::new(pcs.len(), |i: int| index as int);
+        let new1 = pv(new_partition@);
+        let org1 = Seq::new(new1.len(), |i: int| if i < org0.len() { org0[i] } else { index as int });
+        assert(is_cat(new0, pcs, new1));
+        assert(is_cat_org(org0, index as int, pcs.len() as int, org1));
+        lemma_refine_step(tm, old, new0, org0, index as int, pcs, new1, org1);
+        org = org1;
     }
 }
 """, why='`for (i, x) in v.iter().enumerate() { B }` as an index loop (E13); `it.into_iter().for_each(|g| { B })` is `for g in it { B }` (std definition), then E1; closure body kept verbatim'),
